@@ -5,7 +5,7 @@ from gen_api import hx, fbits
 WRITERS = [
     ("SET", "K", "v"), ("SET", "K", "v", "NX"), ("SET", "K", "v", "XX"), ("SETNX", "K", "v"), ("GETSET", "K", "v"), ("APPEND", "K", "x"),
     ("INCR", "K"), ("DECR", "K"), ("INCRBY", "K", "5"), ("DECRBY", "K", "5"), ("INCRBYFLOAT", "K", "2"), ("SETRANGE", "K", "1", "z"), ("SETBIT", "K", "3", "1"),
-    ("MSET", "K", "v", "other", "w"), ("DEL", "K"), ("UNLINK", "K"), ("DEL", "other", "K"), ("EXPIRE", "K", "100"), ("EXPIRE", "K", "0"), ("EXPIREAT", "K", "4102444800"),
+    ("MSET", "K", "v", "other", "w"), ("DEL", "K"), ("UNLINK", "K"), ("DEL", "other", "K"), ("EXPIREAT", "K", "4102444801"), ("EXPIRE", "K", "0"), ("EXPIREAT", "K", "4102444800"),
     ("PERSIST", "K"), ("RENAME", "K", "dst"), ("RENAME", "src", "K"), ("RENAMENX", "K", "dst"), ("RENAMENX", "src", "K"), ("FLUSHDB",), ("FLUSHALL",),
     ("LPUSH", "K", "a"), ("RPUSH", "K", "a"), ("LPOP", "K"), ("RPOP", "K"), ("LPUSHX", "K", "a"), ("LSET", "K", "0", "q"), ("LTRIM", "K", "0", "0"), ("LREM", "K", "0", "a"),
     ("LINSERT", "K", "BEFORE", "a", "n"), ("RPOPLPUSH", "K", "dst"), ("RPOPLPUSH", "src", "K"), ("LPOPRPUSH", "K", "dst"),
